@@ -89,8 +89,37 @@ def _env(facts_dir, roots, target):
     env["CARGO_TARGET_DIR"] = target
     env["CARGO_NET_OFFLINE"] = "true"
     env["CARGO_TERM_COLOR"] = "never"
+    # no incremental state: every scratch copy lives at a fresh path, so its state is never reused and only fills the disk
+    env["CARGO_INCREMENTAL"] = "0"
     env.pop("VERIF_FACTS_SUFFIX", None)
     return env
+
+
+WORKSPACE_PREFIXES = ("anstyle", "libanstyle", "anstream", "libanstream", "colorchoice", "libcolorchoice", "verif_harness", "libverif_harness")
+
+
+def gc_target(max_age_s=3600, target=None):
+    """Drop the workspace members' artefacts older than `max_age_s` from the shared target directory (each scratch copy of the
+    repository compiles them under a new hash; third-party dependencies are shared and stay). Called by tools/regress.py when a
+    run is over; the next extraction rebuilds what it needs."""
+    import time
+    target = target or os.environ.get("VERIF_TARGET_DIR", os.path.join(CACHE, "target"))
+    now, n = time.time(), 0
+    for sub in ("deps", ".fingerprint", "incremental"):
+        d = os.path.join(target, "debug", sub)
+        if not os.path.isdir(d):
+            continue
+        for name in os.listdir(d):
+            if not name.startswith(WORKSPACE_PREFIXES):
+                continue
+            pth = os.path.join(d, name)
+            try:
+                if now - os.path.getmtime(pth) > max_age_s:
+                    shutil.rmtree(pth) if os.path.isdir(pth) else os.remove(pth)
+                    n += 1
+            except OSError:
+                pass
+    return n
 
 
 def _drop_fingerprints(target):
